@@ -2,6 +2,7 @@
 //! vectors given on stdin and prints what it observed; expectations are computed by the Python driver.
 //!   en <dec>        Nat::encode           -> hex
 //!   ei <dec>        Int::encode           -> hex
+//!   st <scenario>   subtype memo scenario (see subtype_case) -> per query "<shared><fresh>"
 //!   dn <hex>        Nat::decode           -> "ok <dec> <consumed>" | "err"
 //!   di <hex>        Int::decode           -> "ok <dec> <consumed>" | "err"
 use candid::{Int, Nat};
@@ -135,6 +136,7 @@ fn main() {
             }
             // history corpus: "h <perm>" encodes + decodes values of 5 (mutually) recursive / generic derived types in the
             // given order on ONE fresh thread and prints each message; "dv" prints derived field orders
+            "st" => subtype_case(&p[1]),
             "h" => history_case(&p[1]),
             "dv" => derive_orders(),
             // quota corpus: "q <case> <dq|-> <sq|->" decodes message #case at its Rust type under the given quotas
@@ -250,4 +252,96 @@ fn derive_orders() -> String {
         fs.iter().map(|f| match f.id.as_ref() { Label::Named(n) => format!("n:{}", hexe(n.as_bytes())), Label::Id(i) | Label::Unnamed(i) => format!("i:{}", i) }).collect::<Vec<_>>().join(",")
     }
     format!("ok {} {} {} {} {} {}", show(A::ty()), show(B::ty()), show(C::ty()), show(D::ty()), show(E::ty()), show(F::ty()))
+}
+
+
+// ---------------------------------------------------------------- subtype memo scenarios
+// scenario (no blanks): defs '|' queries ; defs = name=TYPE,name=TYPE.. ; queries = T1<T2,T1<T2..
+// TYPE: nat int text null reserved empty bool principal | o(T) v(T) | r(id:T;id:T) | V(id:T;..) | f(T;..>T;..) fq(..) | s(name:T;..) | $name
+// output: for each query two digits: answer with ONE memo shared by all queries of the scenario, answer with a fresh memo
+fn subtype_case(sc: &str) -> String {
+    use candid::types::subtype::{subtype_with_config, Gamma, OptReport};
+    use candid::types::{Field, FuncMode, Function, Label, Type, TypeEnv, TypeInner};
+    struct P<'a> { s: &'a [u8], i: usize }
+    impl<'a> P<'a> {
+        fn peek(&self) -> u8 { if self.i < self.s.len() { self.s[self.i] } else { 0 } }
+        fn eat(&mut self, c: u8) { assert_eq!(self.peek(), c, "at {}", self.i); self.i += 1; }
+        fn ident(&mut self) -> String {
+            let a = self.i;
+            while self.peek().is_ascii_alphanumeric() || self.peek() == b'_' { self.i += 1; }
+            String::from_utf8(self.s[a..self.i].to_vec()).unwrap()
+        }
+        fn list(&mut self, close: &[u8]) -> Vec<Type> {
+            let mut v = Vec::new();
+            while !close.contains(&self.peek()) { v.push(self.ty()); if self.peek() == b';' { self.i += 1; } }
+            v
+        }
+        fn fields(&mut self) -> Vec<Field> {
+            let mut v = Vec::new();
+            self.eat(b'(');
+            while self.peek() != b')' {
+                let id: u32 = self.ident().parse().unwrap();
+                self.eat(b':');
+                let ty = self.ty();
+                v.push(Field { id: Label::Id(id).into(), ty });
+                if self.peek() == b';' { self.i += 1; }
+            }
+            self.eat(b')');
+            v
+        }
+        fn ty(&mut self) -> Type {
+            if self.peek() == b'$' { self.i += 1; return TypeInner::Var(self.ident()).into(); }
+            let k = self.ident();
+            match k.as_str() {
+                "nat" => TypeInner::Nat.into(), "int" => TypeInner::Int.into(), "text" => TypeInner::Text.into(),
+                "null" => TypeInner::Null.into(), "reserved" => TypeInner::Reserved.into(), "empty" => TypeInner::Empty.into(),
+                "bool" => TypeInner::Bool.into(), "principal" => TypeInner::Principal.into(),
+                "o" => { self.eat(b'('); let t = self.ty(); self.eat(b')'); TypeInner::Opt(t).into() }
+                "v" => { self.eat(b'('); let t = self.ty(); self.eat(b')'); TypeInner::Vec(t).into() }
+                "r" => TypeInner::Record(self.fields()).into(),
+                "V" => TypeInner::Variant(self.fields()).into(),
+                "f" | "fq" => {
+                    self.eat(b'(');
+                    let args = self.list(b">");
+                    self.eat(b'>');
+                    let rets = self.list(b")");
+                    self.eat(b')');
+                    let modes = if k == "fq" { vec![FuncMode::Query] } else { vec![] };
+                    TypeInner::Func(Function { modes, args, rets }).into()
+                }
+                "s" => {
+                    let mut ms = Vec::new();
+                    self.eat(b'(');
+                    while self.peek() != b')' {
+                        let n = self.ident();
+                        self.eat(b':');
+                        ms.push((n, self.ty()));
+                        if self.peek() == b';' { self.i += 1; }
+                    }
+                    self.eat(b')');
+                    TypeInner::Service(ms).into()
+                }
+                other => panic!("bad type keyword {other}"),
+            }
+        }
+    }
+    let (defs, queries) = sc.split_once('|').unwrap();
+    let mut env = TypeEnv::new();
+    for d in defs.split(',').filter(|d| !d.is_empty()) {
+        let (n, t) = d.split_once('=').unwrap();
+        env.0.insert(n.to_string(), P { s: t.as_bytes(), i: 0 }.ty());
+    }
+    let mut shared = Gamma::new();
+    let mut out = String::new();
+    for q in queries.split(',').filter(|q| !q.is_empty()) {
+        let (a, b) = q.split_once('<').unwrap();
+        let t1 = P { s: a.as_bytes(), i: 0 }.ty();
+        let t2 = P { s: b.as_bytes(), i: 0 }.ty();
+        let r1 = subtype_with_config(OptReport::Silence, &mut shared, &env, &t1, &t2).is_ok();
+        let r2 = subtype_with_config(OptReport::Silence, &mut Gamma::new(), &env, &t1, &t2).is_ok();
+        out.push(if r1 { '1' } else { '0' });
+        out.push(if r2 { '1' } else { '0' });
+        out.push(' ');
+    }
+    format!("ok {}", out.trim_end())
 }
